@@ -25,6 +25,9 @@ C12_NoUseAfterRelease == J => \A o \in Objs : Final(o) # "BAD:written-after-rele
 \* other exchanges have used the pooled objects, a duplicate is answered with the first reply, byte for byte (mode dupcache)
 \* ... and a request handed to a request call is the application's again when the call returns: the library does not go on reading
 \* its body (mode bwpark: the call's context ends while the receive path cuts the next block out of the request)
-C12_CopiesIntact == J => (T.mode \in {"retx", "dupcache", "bwpark"} => T.garbled = 0)
+\* ... and an entry the sweep still holds after the acknowledgement path has taken it out of the table and given its pending copy back
+\* is not copied from any more (mode sweeprace: nothing but the application's next message goes on the wire; giving the copy back
+\* a second time is C12_NoDoubleRelease)
+C12_CopiesIntact == J => (T.mode \in {"retx", "dupcache", "bwpark", "sweeprace"} => T.garbled = 0)
 C12_Ran == J => (T.done /\ Len(T.log) > 0)
 =============================================================================
